@@ -450,6 +450,8 @@ class FieldValueComponentTimeDelta(FieldValueComponentKeyValueBase):
             return value
         if isinstance(value, datetime.timedelta):
             return cls(value)
+        if isinstance(value, float) and not value.is_integer():
+            raise InvalidValue(value, cls, 'value')  # composed as whole seconds
 
         return cls(datetime.timedelta(seconds=value))
 
